@@ -88,15 +88,13 @@ func c15Rules(tier string) []Rule {
 				G(`+^` + ann(`\$1`, "karpenter.sh/nodepool-hash-version") + `#1$`),
 				G(`+^` + ann(`\$0`, "karpenter.sh/nodepool-hash-version") + `#0 == ` + ann(`\$1`, "karpenter.sh/nodepool-hash-version") + `#0$`),
 			}
+			// drift is reported (a non-empty reason, which must be NodePoolDrifted) only when the two hashes differ …
+			gs = append(gs, G(`-^`+ann(`\$0`, "karpenter.sh/nodepool-hash")+`#0 == `+ann(`\$1`, "karpenter.sh/nodepool-hash")+`#0$`, `-^`+ann(`\$1`, "karpenter.sh/nodepool-hash")+`#0 == `+ann(`\$0`, "karpenter.sh/nodepool-hash")+`#0$`))
 			n := 0
-			for _, s := range w.ReturnSinks(fn, core.RetAny) {
-				r := w.RenderInstr(s.Ret)
-				if r == `return ""` {
-					continue
-				}
+			for _, s := range w.ReturnSinks(fn, core.RetSpec{Index: -1, Want: "nonzero"}) {
 				n++
-				if r != `return lo.Ternary[cloudprovider.DriftReason](($0.ObjectMeta.Annotations["karpenter.sh/nodepool-hash"]#0 != $1.ObjectMeta.Annotations["karpenter.sh/nodepool-hash"]#0), "NodePoolDrifted", "")` {
-					out = append(out, core.Bad(id, "TT", "TT:"+static, w.InstrPos(s.Ret), "static drift is reported by `"+r+"`, expected Ternary(nodePoolHash != nodeClaimHash, NodePoolDrifted, \"\")"))
+				if s.Val == nil || w.Render(s.Val) != `"NodePoolDrifted"` {
+					out = append(out, core.Bad(id, "TT", "TT:"+static, w.InstrPos(s.Ret), "static drift is reported by `"+w.RenderInstr(s.Ret)+"`, expected the reason NodePoolDrifted exactly when nodePoolHash != nodeClaimHash"))
 				}
 				for _, g := range gs {
 					if !w.RetGuarded(s, g) {
@@ -106,6 +104,20 @@ func c15Rules(tier string) []Rule {
 			}
 			if n != 1 {
 				out = append(out, core.Bad(id, "TT", "TT:"+static, w.Pos(fn.Pos()), fmt.Sprintf("expected one drift-reporting return, found %d", n)))
+			}
+			// … and conversely "no drift" is answered only when an annotation is missing, the versions differ or the hashes are equal
+			h0, h1 := ann(`\$0`, "karpenter.sh/nodepool-hash"), ann(`\$1`, "karpenter.sh/nodepool-hash")
+			v0, v1 := ann(`\$0`, "karpenter.sh/nodepool-hash-version"), ann(`\$1`, "karpenter.sh/nodepool-hash-version")
+			none := G(`-^`+h0+`#1$`, `-^`+v0+`#1$`, `-^`+h1+`#1$`, `-^`+v1+`#1$`, `-^`+v0+`#0 == `+v1+`#0$`, `-^`+v1+`#0 == `+v0+`#0$`, `+^`+h0+`#0 == `+h1+`#0$`, `+^`+h1+`#0 == `+h0+`#0$`)
+			nz := 0
+			for _, s := range w.ReturnSinks(fn, core.RetSpec{Index: -1, Want: "zero"}) {
+				nz++
+				if !w.RetGuarded(s, none) {
+					out = append(out, core.Bad(id, "TT", "TT:"+static+":no-drift", w.InstrPos(s.Ret), "\"no drift\" can be answered although all four annotations are present, the hash versions agree and the hashes differ"))
+				}
+			}
+			if nz == 0 {
+				out = append(out, core.Bad(id, "TT", "TT:"+static+":no-drift", w.Pos(fn.Pos()), "vacuous: no \"no drift\" return found"))
 			}
 			if len(out) == 0 {
 				out = append(out, core.OK(id, "TT", "TT:"+static, 1, "drift ⇔ all annotations present ∧ versions equal ∧ hashes differ"))
